@@ -52,3 +52,15 @@ package hjky
 //@     invariant forall a Int :: 0 <= a && a < $i ==> r2Checks(p, r1b, r1u, oth(p, a))
 //@     invariant share != nil && share.ID() == p.ctx.HolderID() && len(share.Value()) == nrows(p.scheme.lsss.MSP(), p.ctx.HolderID())
 //@     invariant p.round == old(p.round) && p.round == 2
+
+// ---------------------------------------------------------------- randomness provenance (C07)
+// Round 1: the zero sharing is dealt with THIS participant's reader (kw dealing draws the random column from it, see
+// the kw contracts) for the secret zero; the broadcast vector and every private share come from that one dealing.
+//@ func (*Participant).Round1
+//@   property C07
+//@   uses reader
+//@   ghostvar s0 V
+//@   ensures err == nil ==> result.VerificationVector == dealerOut.VerificationMaterial() && p.state.share == res(dealerOut.Shares().Get(p.ctx.HolderID()), 0)
+//@   ensures err == nil ==> s0 == old(shk(p.prng)) && drawn(box(dealerOut), s0)
+//@   ensures p.prng == old(p.prng)
+//@   ghostset before "dealerOut, err := p.scheme.Deal(kw.NewSecret(p.field.Zero()), p.prng)": s0 = shk(p.prng)
